@@ -137,6 +137,16 @@ def main():
             pre_facts = spec["pre"](vlib.REPO)
         except Exception as e:  # extraction failed closed = obligation broken
             pre_errors.append("extraction failed: %s" % str(e)[-1500:])
+    # 0b. control skeleton (extract/loops.py): the loops of the anchored functions and every way
+    # out of them, compared with tools/loop_profile/<id>.json — what no run shows (bounded retry)
+    skeleton = None
+    if os.path.exists(os.path.join(vlib.VERIF, "tools", "loop_profile", "%s.json" % pid)):
+        sys.path.insert(0, os.path.join(vlib.VERIF, "extract"))
+        import loops as loops_extract
+        try:
+            skeleton = loops_extract.check(vlib.REPO, pid)
+        except Exception as e:
+            pre_errors.append("extraction failed: %s" % str(e)[-1500:])
     # 1. proof obligations
     lean = {"ok": True, "obligations": [], "module": None}
     if not a.no_lean:
@@ -370,6 +380,7 @@ def main():
             "translator_step": {"ran": bool(spec.get("pre")), "ok": not pre_errors,
                                 "what": (spec["pre"].__doc__ or "").strip() if spec.get("pre") else None,
                                 "facts": str(pre_facts)[:600] if pre_facts is not None else None},
+            "control_skeleton": skeleton,
             "anchored_functions": len(anchored),
             "anchored_functions_with_logged_accesses": len(anchored) - len(funcs_unseen),
             "anchored_functions_without_logged_accesses": funcs_unseen,
